@@ -353,3 +353,62 @@ Example ex_get_api_served :
     {| xq := {| q_path := 1; q_id := 1; q_exact := true; q_under := [] |}; xmeth := MGet; xfound := false |}
     (fun _ => OMissing) false = Served.
 Proof. reflexivity. Qed.
+
+(* ------------------------------------------------------------------ *)
+(* txn.pathID derived from the maps *)
+
+Lemma assoc_n_in : forall (m : list (N * N)) k v d,
+  NoDup (map fst m) -> In (k, v) m -> assoc_n d k m = v.
+Proof.
+  induction m as [|[k0 v0] r IH]; intros k v d Hn Hin; [contradiction|].
+  cbn in Hn. inversion Hn as [|x xs Hnin Hnd]; subst. cbn.
+  destruct Hin as [H|H].
+  - inversion H; subst. now rewrite N.eqb_refl.
+  - destruct (N.eqb_spec k k0) as [->|Hne]; [|eauto].
+    exfalso. apply Hnin. apply (in_map fst) in H. exact H.
+Qed.
+
+Lemma pathid_total : forall m ds, ids_cover m ds -> NoDup (map fst m) ->
+  forall d, In d ds -> derive_id m (d_key d) = d_id d.
+Proof. intros m ds Hc Hn d Hd. unfold derive_id. apply assoc_n_in; auto. Qed.
+
+Lemma ids_coverb_spec : forall m ds, ids_coverb m ds = true -> ids_cover m ds.
+Proof.
+  intros m ds H d Hd. unfold ids_coverb in H. rewrite forallb_forall in H.
+  specialize (H d Hd). apply existsb_exists in H as ([k v] & Hin & He).
+  cbn in He. apply andb_true_iff in He as (Hk & Hv).
+  apply N.eqb_eq in Hk. apply N.eqb_eq in Hv. subst. exact Hin.
+Qed.
+
+(* the rendered rules with the id HAProxy derives: complete maps -> fail closed *)
+Lemma rendered_rules_fail_closed_mapped : forall lua fe used0 px ds px' cfgs crs exs m d,
+  process_backend lua fe used0 px ds = (px', cfgs) -> In d ds ->
+  backend_in_charge fe d = true ->
+  ids_cover m ds -> NoDup (map fst m) ->
+  exists a, In (d_id d, a) cfgs /\
+    forall out st q, q_path (xq q) = d_key d -> q_id (xq q) = derive_id m (q_path (xq q)) ->
+      skip_free a (xq q) ->
+      eval_rules (gen_auth_rules {| b_auth := cfgs; b_cors := crs; b_extra := exs |}) q out st = Served ->
+      authenticated out a.
+Proof.
+  intros lua fe used0 px ds px' cfgs crs exs m d Hp Hin Hc Hcov Hn.
+  destruct (rendered_rules_fail_closed _ _ _ _ _ _ _ crs exs _ Hp Hin Hc) as (a & Ha & H).
+  exists a. split; [assumption|]. intros out st q Hq Hid. apply H.
+  rewrite Hid, Hq. now apply (pathid_total m ds).
+Qed.
+
+(* ... an entry missing (txn.pathID unset) and the request goes through every rule *)
+Lemma pathid_missing_refuted :
+  exists ds cfgs m d q,
+    snd (process_backend true (fun _ => false) [] px_default ds) = cfgs /\
+    In d ds /\ backend_in_charge (fun _ => false) d = true /\ ~ ids_cover m ds /\
+    q_path (xq q) = d_key d /\ q_id (xq q) = derive_id m (q_path (xq q)) /\
+    eval_rules (gen_auth_rules {| b_auth := cfgs; b_cors := []; b_extra := [] |}) q (fun _ => OUnreachable) false = Served.
+Proof.
+  set (d1 := {| d_id := 1; d_url := Some (bad_url, 1%N); d_place := PlBackend; d_host := 1; d_key := 5; d_oauth := None |}).
+  set (d2 := {| d_id := 2; d_url := None; d_place := PlBackend; d_host := 1; d_key := 6; d_oauth := None |}).
+  exists [d1; d2], [(1%N, deny_cfg); (2%N, auth0)], [(6%N, 2%N)], d1,
+    {| xq := {| q_path := 5; q_id := 0; q_exact := true; q_under := [] |}; xmeth := MGet; xfound := false |}.
+  repeat split; try reflexivity; try (now left).
+  intros H. specialize (H d1 (or_introl eq_refl)). cbn in H. destruct H as [H|[]]. discriminate.
+Qed.
